@@ -90,7 +90,20 @@ pub fn board_from_raw(pcs: [u64; 6], white: u64, black: u64, side: Color, mask: 
     Some(b)
 }
 
+thread_local! { pub static VIA_FEN: std::cell::Cell<bool> = std::cell::Cell::new(false); }
+
+/// the board of an operation as the IMPLEMENTATION sees it.  In via-FEN mode (set by the generators of the properties whose
+/// observable is "position in, moves / answer out") a valid board is not assembled from raw bitboards but handed to the
+/// engine the way a user hands it over: as FEN text through `Board::new` — so that the FEN reader is part of what is checked.
 pub fn parse_board(s: &str) -> Option<Board> {
+    let b = parse_board_raw(s)?;
+    if VIA_FEN.with(|v| v.get()) && crate::refchess::valid(&b) {
+        return Some(Board::new(&fen_of(&b)));
+    }
+    Some(b)
+}
+
+pub fn parse_board_raw(s: &str) -> Option<Board> {
     let f: Vec<&str> = s.split(',').collect();
     if f.len() != 13 { return None; }
     let mut pcs = [0u64; 6];
